@@ -323,6 +323,11 @@ func immutableHistory(run *evid.Run, h int, wrapper bool) {
 		scripted = u.LateSubjectOps(rng, u.Repos[rng.IntN(len(u.Repos))], "early")
 		run.Count(what+"/late_subject_prefixes", 1)
 	}
+	if h%8 == 7 && !wrapper {
+		// references whose stated sizes are off
+		scripted = u.InexactSizeOps(rng, u.Repos[rng.IntN(len(u.Repos))], "sized")
+		run.Count(what+"/inexact_size_prefixes", 1)
+	}
 	for i := 0; i < 40+len(scripted); i++ {
 		var op *model.Op
 		if i < len(scripted) {
